@@ -35,6 +35,7 @@ type c09Case struct {
 	Ewma    bool    `json:"ewma"`    // bar carries an EWMA decorator (other code path of the Ewma* methods)
 	Ops     []c09Op `json:"ops"`
 	Finish  string  `json:"finish"` // how an unfinished bar is ended before Wait: complete | abort | cancel
+	Keeper  bool    `json:"keeper"` // a second, running bar in the container (a refreshing container then does not hurry the finished bar out)
 }
 
 func init() {
@@ -79,6 +80,7 @@ func genC09(t *rapid.T) interface{} {
 	c.Refresh = rapid.SampledFrom([]string{"none", "manual", "manual", "autoinj"}).Draw(t, "refresh")
 	c.Ewma = rapid.Bool().Draw(t, "ewma")
 	c.Finish = rapid.SampledFrom([]string{"complete", "abort", "cancel"}).Draw(t, "finish")
+	c.Keeper = rapid.Bool().Draw(t, "keeper")
 	m := engine.NewMBar(c.Total)
 	n := rapid.IntRange(0, 40).Draw(t, "nops")
 	near := func(label string) int64 {
@@ -105,10 +107,15 @@ func genC09(t *rapid.T) interface{} {
 	for k := 0; k < n; k++ {
 		var op c09Op
 		if m.Terminal() {
-			// premise of the property: no mutators after the terminal state
-			if c.Refresh != "none" && rapid.IntRange(0, 3).Draw(t, "tick?") == 0 {
+			// premise of the property: no mutators after the terminal state — except
+			// the one the statement names: Abort has no effect on a completed bar
+			switch x := rapid.IntRange(0, 5).Draw(t, "afterterm"); {
+			case x == 0 && c.Refresh != "none":
 				op.Op = "tick"
-			} else {
+			case x == 1 && m.Completed():
+				op.Op = "abort"
+				op.Flag = rapid.Bool().Draw(t, "latedrop")
+			default:
 				op.Op = "get"
 			}
 			c.Ops = append(c.Ops, op)
@@ -258,6 +265,12 @@ func c09Exec(c *c09Case, r *Result) {
 		bopts = append(bopts, mpb.AppendDecorators(ew))
 	}
 	b := p.AddBar(c.Total, bopts...)
+	var keeper *mpb.Bar
+	if c.Keeper {
+		keeper = p.AddBar(100)
+		r.Classes = append(r.Classes, "keeper")
+		defer keeper.Abort(true)
+	}
 	m := engine.NewMBar(c.Total)
 	r.Classes = append(r.Classes, "mode:"+c.Refresh)
 	if c.Total <= 0 {
@@ -340,7 +353,7 @@ func c09Exec(c *c09Case, r *Result) {
 		case "abort":
 			b.Abort(op.Flag)
 		case "tick":
-			if wasTerminal && c.Refresh == "autoinj" {
+			if wasTerminal && c.Refresh == "autoinj" && !c.Keeper {
 				// the container is refreshing by itself now (early refresh); the
 				// injected tick could block forever once the listener is gone
 				break
@@ -388,6 +401,12 @@ func c09Exec(c *c09Case, r *Result) {
 	if m.Abrt {
 		r.Classes = append(r.Classes, "aborted")
 	}
+	for _, op := range c.Ops {
+		if op.Op == "abort" && m.Completed() {
+			r.Classes = append(r.Classes, "abort-on-completed")
+			break
+		}
+	}
 	// every EWMA sample reached the decorator (only while the bar goroutine was alive)
 	if c.Ewma {
 		ew.mu.Lock()
@@ -423,9 +442,26 @@ func c09Exec(c *c09Case, r *Result) {
 			return
 		}
 	}
+	if keeper != nil {
+		keeper.Abort(true)
+	}
 	if !m.Terminal() {
 		p.Shutdown()
 		m.Abrt = true
+	} else if c.Keeper && c.Refresh == "autoinj" {
+		// two bars finished at about the same time see each other as running and
+		// leave the last frames to the ticker, which here is the harness
+		wd := make(chan struct{})
+		go func() { p.Wait(); close(wd) }()
+	loop:
+		for {
+			select {
+			case <-wd:
+				break loop
+			case rreq <- time.Now():
+			case <-time.After(50 * time.Microsecond):
+			}
+		}
 	} else {
 		p.Wait()
 	}
